@@ -179,6 +179,7 @@ func vfC04Run(cs vfC04Case) (msg string, nontrivial bool) {
 		w = zw
 	}
 	pos, k := 0, 0
+	var scratch []byte // one reused write buffer, overwritten after every Write (the writer must not keep the slice)
 	for pos < len(cs.Data) {
 		sz := len(cs.Data) - pos
 		if len(cs.WriteSz) > 0 {
@@ -187,7 +188,7 @@ func vfC04Run(cs vfC04Case) (msg string, nontrivial bool) {
 			}
 			k++
 		}
-		if err := writeAll(w, cs.Data[pos:pos+sz]); err != nil {
+		if err := vfWriteReused(w, cs.Data[pos:pos+sz], &scratch); err != nil {
 			return "producer write: " + err.Error(), hasProtected
 		}
 		pos += sz
